@@ -59,6 +59,8 @@ pub struct Agg {
     pub per_tag: std::collections::BTreeMap<String, (u64, u64)>,
     /// (executions, bound, program) of the most expensive explorations
     pub heaviest: Vec<(u64, usize, String)>,
+    /// raw outcome hashes per job index (only if RunCfg::keep_job_states)
+    pub job_states: std::collections::HashMap<usize, HashSet<u64>>,
 }
 
 pub fn trace_hash(t: &Trace) -> u64 {
@@ -85,6 +87,50 @@ pub fn trace_hash(t: &Trace) -> u64 {
     h.finish()
 }
 
+/// What a user can observe through the API: results, callbacks (expiry evictions excluded: their
+/// timing within the allowed delay may differ), logically live entries and their charges, metrics.
+pub fn observable_hash(t: &Trace) -> u64 {
+    let mut h = DefaultHasher::new();
+    let mut recs: Vec<&Rec> = t.recs.iter().collect();
+    recs.sort_by_key(|r| (r.th, r.idx));
+    for r in recs {
+        (r.th, r.idx, &r.res).hash(&mut h);
+    }
+    // a value whose TTL had elapsed when it was handed back: whether the sweep (on_evict) or a
+    // later remove / overwrite (on_exit) got to it first depends on tick timing within the allowed delay
+    let expired_then = |e: &CbEvent| -> bool {
+        if e.kind == CbKind::Evict && e.exp_expired == Some(true) {
+            return true;
+        }
+        e.val
+            .and_then(|v| t.recs.iter().find(|r| r.wrote == Some(v)))
+            .map(|w| match w.op {
+                Op::Ins { ttl_ms, .. } if ttl_ms > 0 => e.now_ns >= w.call_ns + ttl_ms as u128 * 1_000_000,
+                _ => false,
+            })
+            .unwrap_or(false)
+    };
+    let mut cbs: Vec<(CbKind, Option<Val>, i64)> = t.ledger.iter().filter(|e| !expired_then(e)).map(|e| (e.kind, e.val, e.cost)).collect();
+    cbs.sort_by_key(|c| (c.1, c.2));
+    for c in cbs {
+        (c.0 as u8, c.1, c.2).hash(&mut h);
+    }
+    if let Some(s) = t.snaps.last() {
+        let mut live: Vec<(u64, Val, i64)> = s
+            .entries
+            .iter()
+            .filter(|e| s.alive(e))
+            .map(|e| (e.index, e.value, s.policy.key_costs.iter().find(|k| k.0 == e.index).map(|k| k.1).unwrap_or(-1)))
+            .collect();
+        live.sort();
+        live.hash(&mut h);
+        if let Some(m) = &s.metrics {
+            (m.hits, m.misses, m.sets_dropped, m.sets_rejected, m.gets_kept, m.gets_dropped).hash(&mut h);
+        }
+    }
+    h.finish()
+}
+
 struct Acc {
     states: HashSet<u64>,
     interesting: HashSet<u64>,
@@ -98,6 +144,7 @@ pub struct RunCfg {
     pub max_exec_per_job: u64,
     pub max_violations_per_job: usize,
     pub stop_on_first: bool,
+    pub keep_job_states: bool,
 }
 impl RunCfg {
     pub fn new(secs: u64) -> Self {
@@ -107,6 +154,7 @@ impl RunCfg {
             max_exec_per_job: 3_000_000,
             max_violations_per_job: 3,
             stop_on_first: false,
+            keep_job_states: false,
         }
     }
 }
@@ -117,7 +165,7 @@ fn make_body(p: Arc<Program>, oracle: OracleFn, interest: InterestFn, acc: Arc<M
             for (class, msg) in oracle(&p, &t) {
                 rt::violation(&class, msg);
             }
-            let h = trace_hash(&t);
+            let h = if observable_only() { observable_hash(&t) } else { trace_hash(&t) };
             let mut a = acc.lock().unwrap();
             a.states.insert(h);
             if interest(&p, &t) {
@@ -125,10 +173,18 @@ fn make_body(p: Arc<Program>, oracle: OracleFn, interest: InterestFn, acc: Arc<M
                 a.interesting_execs += 1;
             }
         }
-        Err(_) => {
+        Err(e) => {
+            for (class, msg) in crate::checks::o_build_error(&p, &e) {
+                rt::violation(&class, msg);
+            }
             acc.lock().unwrap().rejected = true;
         }
     })
+}
+
+thread_local! { static OBS_ONLY: std::cell::Cell<bool> = const { std::cell::Cell::new(false) }; }
+fn observable_only() -> bool {
+    OBS_ONLY.with(|o| o.get())
 }
 
 fn new_acc() -> Acc {
@@ -157,6 +213,7 @@ pub fn run_jobs(jobs: Vec<Job>, oracle: OracleFn, interest: InterestFn, rc: RunC
             std::thread::Builder::new()
                 .stack_size(16 << 20)
                 .spawn(move || {
+                    OBS_ONLY.with(|o| o.set(rc.keep_job_states));
                     let cur = std::rc::Rc::new(std::cell::RefCell::new(Cursor {
                         job: None,
                         bound_ix: 0,
@@ -183,6 +240,9 @@ pub fn run_jobs(jobs: Vec<Job>, oracle: OracleFn, interest: InterestFn, rc: RunC
                                 let mut ph = DefaultHasher::new();
                                 job.program.hash(&mut ph);
                                 let ph = ph.finish().rotate_left(17);
+                                if rc.keep_job_states {
+                                    a.job_states.insert(i, c.local_states.clone());
+                                }
                                 a.states.extend(c.local_states.iter().map(|s| s ^ ph));
                                 a.interesting.extend(c.local_int.iter().map(|s| s ^ ph));
                                 if a.samples.len() < 6 && (i % 97 == 0 || a.samples.is_empty()) {
